@@ -283,6 +283,11 @@ func TestVerifC40Seq(t *testing.T) {
 						err = lb.DoDeadline(&req, &resp, time.Now().Add(30*time.Second))
 					}
 				}()
+				if !firstPenalty.IsZero() && time.Since(firstPenalty) > 2500*time.Millisecond {
+					slow++ // the call itself was delayed past the safe window: inconclusive
+					stop = true
+					continue
+				}
 				callsJudged++
 				got := 0
 				for id, f := range fakes {
@@ -523,8 +528,10 @@ func TestVerifC40Burst(t *testing.T) {
 	release := make(chan struct{})
 	f1 := &c40Fake{id: 1, rec: rec}
 	f1.outcome = func(int) (bool, time.Duration) { return false, 0 }
+	var releasedAt atomic.Int64
 	f1.gate = func() {
 		if int(arrived.Add(1)) == n {
+			releasedAt.Store(time.Now().UnixNano())
 			close(release)
 		}
 		select {
@@ -562,7 +569,13 @@ func TestVerifC40Burst(t *testing.T) {
 	if pen > maxPenalty {
 		vfViol("burst:penalty-over-max", fmt.Sprintf("after %d simultaneous failures settled the client carries penalty %d > %d", n, pen, maxPenalty), info)
 	}
-	if simultaneous == n && int(pen) != maxPenalty {
+	burstTook := time.Duration(0)
+	if r := releasedAt.Load(); r != 0 {
+		burstTook = settled.Sub(time.Unix(0, r))
+	}
+	info["burst_took_ms"] = burstTook.Milliseconds()
+	// exact accounting only if the whole burst settled well before the first timer (3 s) could fire
+	if simultaneous == n && burstTook < penaltyDuration/2 && int(pen) != maxPenalty {
 		// every failure was penalised or undone: exactly maxPenalty must remain
 		vfViol("burst:penalty-accounting", fmt.Sprintf("%d simultaneous failures left penalty %d, want %d", n, pen, maxPenalty), info)
 	}
